@@ -204,8 +204,10 @@ def save_calibrator_state(  # noqa: PLR0913
     series_filename = "series_samp.h5"
     series_filepath = checkpoint_path / series_filename
 
-    # If the HDF5 file already exists, open in append mode and add only new rows.
-    if series_filepath.exists():
+    # If the HDF5 file already exists and holds a prefix of the series to save (i.e. an
+    # earlier checkpoint of this same run), open in append mode and add only new rows.
+    # Anything else (e.g. a checkpoint of a different run) is overwritten below.
+    if series_filepath.exists() and _is_prefix_of(series_filepath, series_samp):
         with h5py.File(series_filepath, mode="a") as series_file:
             data = series_file["data"]  # Get the existing dataset
             previous_shape = data.shape  # E.g., (num_rows, dim2, dim3, ...)
@@ -235,3 +237,18 @@ def save_calibrator_state(  # noqa: PLR0913
         )
 
     return
+
+
+def _is_prefix_of(series_filepath: Path, series_samp: NDArray[np.float64]) -> bool:
+    """Check whether the series stored in a HDF5 file are the first rows of 'series_samp'."""
+    try:
+        with h5py.File(series_filepath, mode="r") as series_file:
+            data = series_file["data"]
+            nb_rows = data.shape[0]
+            return (
+                data.shape[1:] == series_samp.shape[1:]
+                and nb_rows <= series_samp.shape[0]
+                and np.array_equal(data[:], series_samp[:nb_rows])
+            )
+    except (OSError, KeyError):
+        return False
